@@ -1,0 +1,35 @@
+//go:build verif
+
+// Copyright (c) Jim Lambert
+// SPDX-License-Identifier: MIT
+
+package gldap
+
+import (
+	"bufio"
+	"context"
+	"io"
+
+	"github.com/hashicorp/go-hclog"
+)
+
+// VerifReadRequest reads and decodes one request from r through the same
+// code path a connection uses (readPacket, basicValidation, newRequest,
+// newMessage, the *Parameters decoders and decodeControl). It exists only in
+// builds with the "verif" tag and lets an external monitor drive request
+// decoding over an in-memory reader.
+func VerifReadRequest(r io.Reader) (kind string, err error) {
+	c := &conn{
+		connID:      1,
+		logger:      hclog.NewNullLogger(),
+		router:      &Mux{},
+		shutdownCtx: context.Background(),
+		reader:      bufio.NewReader(r),
+		writer:      bufio.NewWriter(io.Discard),
+	}
+	req, err := c.readRequest(1)
+	if err != nil {
+		return "", err
+	}
+	return string(req.routeOp), nil
+}
